@@ -4,6 +4,8 @@ import (
 	"encoding/json"
 	"fmt"
 	"os"
+	"reflect"
+	"strings"
 	"time"
 
 	sdk "github.com/cosmos/cosmos-sdk/types"
@@ -132,3 +134,52 @@ func (t *Trace) CloneWithSteps(steps []*Step) *Trace {
 	n.Steps = steps
 	return &n
 }
+
+// walkStrings applies f to every string reachable through exported fields of a
+// message (strings, string slices, nested messages).
+func walkStrings(v reflect.Value, f func(string) string) {
+	switch v.Kind() {
+	case reflect.Ptr, reflect.Interface:
+		if !v.IsNil() {
+			walkStrings(v.Elem(), f)
+		}
+	case reflect.Struct:
+		for i := 0; i < v.NumField(); i++ {
+			if v.Type().Field(i).PkgPath != "" {
+				continue // unexported
+			}
+			walkStrings(v.Field(i), f)
+		}
+	case reflect.Slice:
+		if v.Type().Elem().Kind() == reflect.Uint8 {
+			return
+		}
+		for i := 0; i < v.Len(); i++ {
+			walkStrings(v.Index(i), f)
+		}
+	case reflect.String:
+		if v.CanSet() {
+			if s := v.String(); s != "" {
+				if t := f(s); t != s {
+					v.SetString(t)
+				}
+			}
+		}
+	}
+}
+
+// canonAddr: the all-upper-case spelling of a bech32 address is the same address.
+func canonAddr(s string) string {
+	if len(s) < 8 || s[0] < 'A' || s[0] > 'Z' || strings.ToUpper(s) != s {
+		return s
+	}
+	a, err := sdk.AccAddressFromBech32(s)
+	if err != nil {
+		return s
+	}
+	return a.String()
+}
+
+// CanonMsg rewrites every address in m to its canonical spelling: the checkers
+// reason about accounts, not about spellings of their addresses.
+func CanonMsg(m sdk.Msg) { walkStrings(reflect.ValueOf(m), canonAddr) }
